@@ -6,7 +6,7 @@
     that link the two sides (Proofs/FulfillSteps.v), what was validated, which transfers and fee
     inputs were built from them, and which filled orders are reported. *)
 From Coq Require Import ZArith List Bool Lia ZifyBool PArith.
-From PV Require Import Exchange.Arith Exchange.Split Exchange.Fulfill
+From PV Require Import Exchange.Arith Exchange.Split Exchange.Fulfill Exchange.SettleSpec
   Proofs.ArithProofs Proofs.SplitProofs Proofs.FulfillProofs Proofs.FulfillSteps.
 Import ListNotations.
 Open Scope Z_scope.
@@ -209,8 +209,6 @@ Lemma set_bid_fees_nofee l : map nofee (set_bid_fees l) = map nofee l.
 Proof. unfold set_bid_fees. rewrite map_map. apply map_ext. reflexivity. Qed.
 
 (** ** Indexed amounts per address *)
-Definition at_d (d d' : denom) (z : Z) : Z := if Pos.eqb d d' then z else 0.
-
 Definition idx_at (i : indexed) (x : addr) (d : denom) : Z :=
   sumz (fun e => if Pos.eqb x (fst e) then amount_of (snd e) d else 0) i.
 
